@@ -1,5 +1,5 @@
 -- Expected operation skeletons of the functions the session / accept / shutdown / client models mirror.
--- Reviewed by hand against KmipModel/Session.lean, Accept.lean, Shutdown.lean, Client.lean: each entry is the ordered list of
+-- Reviewed by hand against KmipModel/Session.lean, Accept.lean, Shutdown.lean, Client.lean, Discover.lean: each entry is the ordered list of
 -- synchronisation, I/O, callback and control-flow operations of the function (see harness/cmd/kvscan/skeleton.go).
 -- GenC07/GenC11/... prove the skeletons regenerated from /repo equal these, so a structural change to those functions
 -- breaks a proof obligation and forces the model to be re-examined.
@@ -126,6 +126,7 @@ def skel_Server_Serve : List String := [
   "}",
   "if len(s.SupportedVersions) == 0 {",
   "call []ProtocolVersion",
+  "call append",
   "set s.SupportedVersions",
   "}",
   "if s.handlers == nil {",
@@ -231,6 +232,7 @@ def skel_Server_handleBatch : List String := [
   "range req.BatchItems {",
   "set resp.BatchItems[i].Operation",
   "call []byte",
+  "call append",
   "set resp.BatchItems[i].UniqueID",
   "call s.handleWrapped",
   "if batchErr != nil {",
@@ -257,10 +259,12 @@ def skel_Server_handleDiscoverVersions : List String := [
   "}",
   "if len(request.ProtocolVersions) == 0 {",
   "call []ProtocolVersion",
+  "call append",
   "} else {",
   "range request.ProtocolVersions {",
   "range s.SupportedVersions {",
   "if version == v {",
+  "call append",
   "break",
   "}",
   "}",
